@@ -304,6 +304,9 @@ void TreeGraphImpl<GraphImpl>::fillListOfLeaves_(Graph::NodeId startingNode, std
 template<class GraphImpl>
 std::vector<Graph::NodeId> TreeGraphImpl<GraphImpl>::getLeavesUnderNode(Graph::NodeId node) const
 {
+  // in an unrooted tree the sons of a son include the node itself: next to another inner node
+  // the recursion would never end
+  mustBeRooted_();
   std::vector<Graph::NodeId> foundLeaves;
   fillListOfLeaves_(node, foundLeaves);
 
